@@ -173,6 +173,7 @@ func Implies(a, b bool) bool { return !a || b }
 func MapOrder(symbolic bool)        {}
 func Sched(budget int, explore bool) {}
 func SelectChoice(on bool)          {}
+func SchedPolicy(policy int)        {}
 func RaceMonitor(on bool)           {}
 // AllocLimit: natively the case fails if it allocates more than 32x the limit in total.
 func AllocLimit(n int) { allocLimit = uint64(n) }
